@@ -37,6 +37,8 @@ def check(c: Check):
     clause_de(c)
     clause_f(c)
     clause_g(c)
+    from .common import sweep_records
+    sweep_records(c, 'C02-rec', ['exactly_lib.processing', 'exactly_lib.common.exit_value', 'exactly_lib.common.process_result_reporter', 'exactly_lib.test_case.result'], floor=12)
 
 
 # ---------------------------------------------------------------- a
